@@ -6,6 +6,7 @@ self-test can swap one module for an edited copy without touching the disk.
 from __future__ import annotations
 import ast, os, copy
 from .report import REPO, AnalysisError
+from .canon import canonicalise, accumulate_to_comprehension
 
 PKG = "inference"
 
@@ -63,7 +64,33 @@ def iter_functions(tree, prefix=""):
             yield from iter_functions(st, prefix + st.name + ".")
 
 
+def _align(have, want):
+    """Longest common subsequence alignment of two name lists -> list of (have_index or None, want_index or None)."""
+    n, m = len(have), len(want)
+    L = [[0] * (m + 1) for _ in range(n + 1)]
+    for i in range(n - 1, -1, -1):
+        for j in range(m - 1, -1, -1):
+            L[i][j] = L[i + 1][j + 1] + 1 if have[i] == want[j] else max(L[i + 1][j], L[i][j + 1])
+    i = j = 0
+    out = []
+    while i < n and j < m:
+        if have[i] == want[j]:
+            out.append((i, j))
+            i += 1
+            j += 1
+        elif L[i + 1][j] >= L[i][j + 1]:
+            out.append((i, None))
+            i += 1
+        else:
+            out.append((None, j))
+            j += 1
+    out += [(k, None) for k in range(i, n)] + [(None, k) for k in range(j, m)]
+    return out
+
+
 def normalise_locals(tree, rel):
+    """P6: map renamed locals back to the reference names.  Names that are unchanged anchor the alignment; between two anchors a
+    run of k unknown names opposite a run of k missing reference names is a renaming, position by position."""
     ref = _reference_locals().get(rel)
     if not ref:
         return 0
@@ -71,13 +98,30 @@ def normalise_locals(tree, rel):
     for qn, fn in iter_functions(tree):
         want = ref.get(qn)
         have = function_locals(fn)
-        if not want or len(want) != len(have) or want == have or set(want) == set(have):
+        if not want or want == have:
             continue
-        mapping = {h: w for h, w in zip(have, want) if h != w}
+        al = _align(have, want)
+        mapping = {}
+        k = 0
+        while k < len(al):
+            if al[k][0] is not None and al[k][1] is not None:
+                k += 1
+                continue
+            run_h, run_w = [], []
+            while k < len(al) and not (al[k][0] is not None and al[k][1] is not None):
+                if al[k][0] is not None:
+                    run_h.append(have[al[k][0]])
+                if al[k][1] is not None:
+                    run_w.append(want[al[k][1]])
+                k += 1
+            if len(run_h) == len(run_w):
+                mapping.update({h: w for h, w in zip(run_h, run_w)})
+        mapping = {h: w for h, w in mapping.items() if h != w and w not in have}
+        if not mapping:
+            continue
         # never rename onto a name that is otherwise used in the function (parameter / global)
         used = {n.id for n in ast.walk(fn) if isinstance(n, ast.Name)} | {a.arg for a in fn.args.args}
-        if any(w in used and w not in have for w in mapping.values()):
-            continue
+        mapping = {h: w for h, w in mapping.items() if w not in used}
         for n in ast.walk(fn):
             if isinstance(n, ast.Name) and n.id in mapping:
                 n.id = mapping[n.id]
@@ -154,13 +198,16 @@ def inline_new_temps(tree, rel):
         return 0
     total = 0
     for qn, fn in iter_functions(tree):
+        if qn == "__all__":
+            continue
         want = ref.get(qn) or []          # functions without locals are not listed
         have = function_locals(fn)
         new = [h for h in have if h not in want]
-        if not new or not set(want) <= set(have):
-            continue
+        if not new or len(have) <= len(want):
+            continue                          # nothing added (a pure renaming is P6's business)
         changed = True
-        while changed:
+        budget = [len(have) - len(want)]      # inline at most as many temporaries as were added
+        while changed and budget[0] > 0:
             changed = False
             stores, loads = {}, {}
             for n in ast.walk(fn):
@@ -183,7 +230,7 @@ def inline_new_temps(tree, rel):
                     for h in getattr(st, "handlers", []) or []:
                         process(h.body)
                     if isinstance(st, ast.Assign) and len(st.targets) == 1 and isinstance(st.targets[0], ast.Name) \
-                            and st.targets[0].id in cands and i + 1 < len(body):
+                            and st.targets[0].id in cands and i + 1 < len(body) and budget[0] > 0:
                         name, nxt = st.targets[0].id, body[i + 1]
                         hits = [h for root in _once_positions(nxt) for h in _find_once(root, name)]
                         if len(hits) == 1 and hits[0][1]:
@@ -202,6 +249,7 @@ def inline_new_temps(tree, rel):
                                         wi.context_expr = Sub().visit(wi.context_expr)
                             del body[i]
                             cands.discard(name)
+                            budget[0] -= 1
                             changed = True
                             nonlocal_total[0] += 1
                             continue
@@ -276,7 +324,10 @@ class Program:
         self.modules = {}             # dotted name -> ModuleInfo
         self.by_rel = {}
         for rel, tree in trees.items():
+            known = (_reference_locals().get(rel) or {}).get("__all__")
+            canonicalise(tree, set(known) if known is not None else None)
             inline_new_temps(tree, rel)
+            accumulate_to_comprehension(tree)
             normalise_locals(tree, rel)
             name = rel[:-3].replace("/", ".")
             if name.endswith(".__init__"):
